@@ -7,8 +7,10 @@ import (
 	"sort"
 	"strings"
 
+	"mosn.io/api"
 	v2 "mosn.io/mosn/pkg/config/v2"
 	"mosn.io/mosn/pkg/router"
+	"mosn.io/mosn/pkg/types"
 	"mosn.io/mosn/pkg/upstream/cluster"
 
 	. "vh/vhlib"
@@ -248,6 +250,88 @@ func c06(args []string) int {
 	esh.Close()
 	dsh.Close()
 	hsh.Close()
+
+	// ---------------- part 3: the weighted round robin BALANCER (EdfLoadBalancer.refresh + ChooseHost) ----------------
+	// all hosts healthy; the balancer is rebuilt several times so that different numbers of random pre-picks are seen
+	wsh := run.NewShard("From MV Require Import Model.Edf.\nFrom Coq Require Import List ZArith.\nImport ListNotations.\nOpen Scope Z_scope.\n",
+		"edf_case", "wrr_mismatches")
+	winfo := cluster.NewClusterInfo(v2.Cluster{Name: "c06wrr", LbType: v2.LbType(types.WeightedRoundRobin)})
+	wvecs := [][]uint32{{1, 128}, {128, 1}, {1, 2}, {2, 1, 1}, {1, 1, 1, 100}, {3, 3, 3}, {5, 5}, {1, 2, 3, 64}, {0, 7}, {200, 1}, {300, 128, 64}}
+	for i := 0; i < run.N(12, 120); i++ {
+		n := 2 + r.Intn(4)
+		v := make([]uint32, n)
+		for j := range v {
+			switch r.Intn(5) {
+			case 0:
+				v[j] = 1
+			case 1:
+				v[j] = 128
+			default:
+				v[j] = uint32(1 + r.Intn(128))
+			}
+		}
+		wvecs = append(wvecs, v)
+	}
+	wpicks := run.N(200, 1500)
+	for vi, vec := range wvecs {
+		eff := make([]uint32, len(vec)) // effective weights after fixHostWeight: clamp to 1..128
+		alleq := true
+		for i, w := range vec {
+			eff[i] = w
+			if w < 1 {
+				eff[i] = 1
+			}
+			if w > 128 {
+				eff[i] = 128
+			}
+			if w != vec[0] {
+				alleq = false
+			}
+		}
+		for rep := 0; rep < run.N(6, 20); rep++ {
+			var hosts []types.Host
+			idx := map[string]int{}
+			for i, w := range vec {
+				addr := fmt.Sprintf("10.6.%d.%d:%d", vi%250, i, 1000+rep)
+				h := cluster.NewSimpleHost(v2.Host{HostConfig: v2.HostConfig{Address: addr, Weight: w}}, winfo)
+				h.ClearHealthFlag(api.FAILED_ACTIVE_HC)
+				h.ClearHealthFlag(api.FAILED_OUTLIER_CHECK)
+				hosts = append(hosts, h)
+				idx[addr] = i
+			}
+			lb := cluster.NewLoadBalancer(winfo, cluster.NewHostSet(hosts))
+			picks := make([]int, wpicks)
+			bad := ""
+			for k := range picks {
+				h := lb.ChooseHost(nil)
+				if h == nil {
+					bad = fmt.Sprintf("ChooseHost returned nil at pick %d with all hosts healthy", k)
+					picks = picks[:k]
+					break
+				}
+				picks[k] = idx[h.AddressString()]
+			}
+			run.Count(fmt.Sprintf("wrr|%v|%d", vec, rep), !alleq, fmt.Sprintf("wrr-hosts=%d", len(vec)))
+			rep2 := map[string]interface{}{"part": "wrr-balancer", "weights": vec, "effective_weights": eff, "npicks": len(picks), "first_picks": picks[:minInt(40, len(picks))]}
+			if bad == "" {
+				bad = edfWindowViolation(eff, picks)
+			}
+			if bad != "" {
+				run.Fail("wrr:window-bound", "weighted round robin balancer (all hosts healthy): "+bad, rep2)
+			}
+			if !alleq { // with equal weights there is no scheduler (plain round robin): only the finder applies
+				var ws, ps []string
+				for _, w := range eff {
+					ws = append(ws, CoqZ(int64(w)))
+				}
+				for _, p := range picks[:minInt(120, len(picks))] {
+					ps = append(ps, fmt.Sprintf("%d%%nat", p))
+				}
+				wsh.Add(fmt.Sprintf("(%s, %s)", CoqList(ws), CoqList(ps)), rep2)
+			}
+		}
+	}
+	wsh.Close()
 	return run.Finish()
 }
 
@@ -287,6 +371,13 @@ func edfWindowViolation(ws []uint32, picks []int) string {
 		}
 	}
 	return ""
+}
+
+func minInt(a, b int) int {
+	if a < b {
+		return a
+	}
+	return b
 }
 
 var _ = sort.Strings
